@@ -1,9 +1,10 @@
 import FiberModel.Basic
 /-
-C09 — executable model of fiber's content negotiation (after the `fix:` commits F1–F3, see
-docs/C09.md): `/repo/helpers.go` `forEachMediaRange`, `getOffer` (fast and slow q parsers,
-specificity), `sortAcceptedTypes` (binary insertion exactly as written), the nested search,
-`acceptsOffer`, `acceptsOfferType`, `paramsMatch`; `fasthttp.VisitHeaderParams`; `ctx.go` `Format`.
+C09 — executable model of fiber's content negotiation (after the `fix:` commits F1–F5, see
+docs/C09.md): `/repo/helpers.go` `forEachMediaRange`, `forEachParameter`, `isTokenByte`, `getOffer`
+(fast and slow q parsers, specificity), `sortAcceptedTypes` (binary insertion exactly as written),
+the nested search, `acceptsOffer`, `acceptsOfferType`, `paramsMatch`; `fasthttp.VisitHeaderParams`
+(offer parameters in `paramsMatch`); `ctx.go` `Format`.
 
 Parameters (modelled, not verified): `strconv.ParseFloat` outside the plain decimal grammar
 (`tab`), `utils.GetMIME` (`mime`). Both are shipped by the harness with every case.
@@ -116,10 +117,55 @@ def visitFuel : Nat → Bytes → List (Bytes × Bytes)
 
 def visitParams (b : Bytes) : List (Bytes × Bytes) := visitFuel (b.length + 1) b
 
+/-! ### `helpers.go forEachParameter` (the parameters of a media range of the request header) -/
+
+/-- a byte of optional whitespace: `OWS = *( SP / HTAB )` -/
+def isOWSb (c : Nat) : Bool := c == 32 || c == 9
+
+/-- the part of one loop iteration of `forEachParameter` after the `;` and the optional whitespace
+    (`isTokenByte` = `tchar`): `none` = the function returns; `some (none, rest)` = an empty parameter
+    (`continue`); `some (some kv, rest)` = the pair handed to the callback. `rest` = the bytes the next
+    iteration starts from. -/
+def scanBody (b2 : Bytes) : Option (Option (Bytes × Bytes) × Bytes) :=
+  if b2.head? == some 59 then some (none, b2) else
+  let key := b2.takeWhile tchar
+  if key.isEmpty then none else
+  match b2.drop key.length with
+  | 61 :: c :: rest =>
+    if tchar c then
+      let v := (c :: rest).takeWhile tchar
+      some (some (key, v), (c :: rest).drop v.length)
+    else if c == 34 then
+      match quotedValue rest false [] with
+      | none => none
+      | some (v, after) => some (some (key, v), after)
+    else none
+  | _ => none
+
+/-- one iteration of the `for` loop of `forEachParameter`. Differs from `visitStep` in two places
+    only: HTAB is skipped after the `;` like SP, and a `;` right after the optional whitespace is an
+    empty parameter, not the end of the scan. -/
+def scanStep (b : Bytes) : Option (Option (Bytes × Bytes) × Bytes) :=
+  match afterSemi b with
+  | none => none
+  | some b1 => scanBody (b1.dropWhile isOWSb)
+
+/-- All `(key, value)` pairs `forEachParameter` passes to a callback that never stops it.
+    One loop iteration per unit of fuel (each iteration consumes at least the `;`). -/
+def scanFuel : Nat → Bytes → List (Bytes × Bytes)
+  | 0, _ => []
+  | fuel + 1, b =>
+    match scanStep b with
+    | none => []
+    | some (none, rest) => scanFuel fuel rest
+    | some (some kv, rest) => kv :: scanFuel fuel rest
+
+def scanParams (b : Bytes) : List (Bytes × Bytes) := scanFuel (b.length + 1) b
+
 /-! ### `forEachMediaRange` -/
 
 inductive Mode where
-  | lead (saw : Bool)            -- `utils.TrimLeft(header, ' ')`; `saw` = some byte follows the last comma
+  | lead (saw : Bool)            -- `bytes.TrimLeft(header, " \t")`; `saw` = some byte follows the last comma
   | body (odd esc : Bool)        -- inside an element: `quotes % 2 == 1`, `escaping`
 
 inductive StepR where
@@ -139,7 +185,7 @@ def rangesGo : Bytes → Mode → Bytes → List Bytes
   | [], .lead saw, _ => if saw then [[]] else []
   | [], .body _ _, acc => [acc.reverse]
   | c :: cs, .lead _, _ =>
-    if c == 32 then rangesGo cs (.lead true) []
+    if isOWSb c then rangesGo cs (.lead true) []
     else match bodyStep c false false with
       | .emit => [] :: rangesGo cs (.lead false) []
       | .cont o e => rangesGo cs (.body o e) [c]
@@ -187,6 +233,9 @@ def specificity (spec : Bytes) : Nat :=
 /-- `bytes.TrimRight(x, " \t")` -/
 def trimRightOWS (s : Bytes) : Bytes := (s.reverse.dropWhile (fun c => c == 32 || c == 9)).reverse
 
+/-- `bytes.Trim(x, " \t")` -/
+def trimOWS (s : Bytes) : Bytes := trimRightOWS (s.dropWhile isOWSb)
+
 /-- split at the first `;`: (before, from the `;` on) -/
 def splitSemi : Bytes → Option (Bytes × Bytes)
   | [] => none
@@ -196,19 +245,19 @@ def splitSemi : Bytes → Option (Bytes × Bytes)
 def qualityParams (tab : Bytes → Option Qual) (rest : Bytes) : Qual × Params :=
   if hasPrefix rest (b ";q=") && !(rest.drop 3).contains 59 then
     ((ufloat tab (trimRightOWS (rest.drop 3))).getD .one, [])
-  else slowParams tab (visitParams rest) .one []
+  else slowParams tab (scanParams rest) .one []
 
 /-- the functor body of `getOffer` for one element; `none` = skipped (`quality == 0.0`) -/
 def parseElem (tab : Bytes → Option Qual) (accept : Bytes) (order : Nat) : Option Range :=
   match splitSemi accept with
   | none =>
-    let spec := trim accept 32
+    let spec := trimOWS accept
     some { spec := spec, q := .one, spcf := specificity spec, params := [], order := order }
   | some (sp, rest) =>
     let (q, params) := qualityParams tab rest
     if q.isZero then none
     else
-      let spec := trim sp 32
+      let spec := trimOWS sp
       some { spec := spec, q := q, spcf := specificity spec, params := params, order := order }
 
 /-- all accepted types, in header order; `order` counts every element (skipped ones too) -/
